@@ -170,9 +170,10 @@ theorem boundsOKAll_of_slicesOK (bounds : Option Int → Option Int → Option I
             subst h1
             exact ⟨hok.1, ih ds xs h2 hok.2⟩
 
-/-- `DOK._setitem`'s bounds with `ind.start if ind.start is not None else …` in the negative-step
-branch: the definition `Gen.dokSliceBounds` becomes once `start = ind.start or self.shape[i] - 1`
-is repaired upstream. -/
+/-- `DOK._setitem`'s slice bounds written by hand (both branches read a missing part as `None`, never by
+truthiness): the reference the generated `Gen.dokSliceBounds` is compared with (`gen_is_fixed`).  Until
+/repo commit 5f937a6 the negative-step branch read `ind.start or self.shape[i] - 1`, which took a start
+of 0 for missing, and the two definitions differed. -/
 def dokSliceBoundsFixed (istart istop istep : Option Int) (dim : Int) : Int × Int × Int :=
   let step : Int := (match istep with | none => 1 | some s => s)
   if step > 0 then
@@ -189,15 +190,6 @@ theorem fixed_bounds_clip (s e st d : Int) (_hst : st ≠ 0) :
     dokSliceBoundsFixed (some (Gen.clipSlice s e st d).1) (some (Gen.clipSlice s e st d).2.1)
       (some (Gen.clipSlice s e st d).2.2) d = Gen.clipSlice s e st d := by
   simp only [dokSliceBoundsFixed, Gen.clipSlice]
-  grind
-
-/-- the bounds `DOK._setitem` computes today return the normalised slice itself — outside the region
-"negative step, normalised start 0, extent above 1" -/
-theorem gen_bounds_clip (s e st d : Int) (hd : 0 ≤ d) (hst : st ≠ 0)
-    (hex : ¬ ((Gen.clipSlice s e st d).2.2 < 0 ∧ (Gen.clipSlice s e st d).1 = 0 ∧ 1 < d)) :
-    Gen.dokSliceBounds (some (Gen.clipSlice s e st d).1) (some (Gen.clipSlice s e st d).2.1)
-      (some (Gen.clipSlice s e st d).2.2) d = Gen.clipSlice s e st d := by
-  simp only [Gen.dokSliceBounds, Gen.clipSlice] at hex ⊢
   grind
 
 theorem clip_step (s e st d : Int) : (Gen.clipSlice s e st d).2.2 = st := by
@@ -219,25 +211,6 @@ theorem getD_one_ne_zero {c : Option Int} (hc : c ≠ some 0) : c.getD 1 ≠ 0 :
   | none => simp
   | some x => simp only [Option.getD_some]; intro h; exact hc (by rw [h])
 
-theorem gen_boundsOK (a b c : Option Int) (d : Nat) (hc : c ≠ some 0) (hex : ExcludedSlice a b c d = false) :
-    BoundsOK Gen.dokSliceBounds (normalizeSlice a b c d).1 (normalizeSlice a b c d).2.1
-      (normalizeSlice a b c d).2.2 d := by
-  obtain ⟨s, e, st, hn, hst⟩ := normalizeSlice_eq_clip a b c d
-  have hst0 : st ≠ 0 := hst ▸ getD_one_ne_zero hc
-  have hex' : ¬ ((Gen.clipSlice s e st d).2.2 < 0 ∧ (Gen.clipSlice s e st d).1 = 0 ∧ 1 < (d : Int)) := by
-    rw [← hn]
-    intro h
-    simp only [ExcludedSlice, Bool.and_eq_false_iff, decide_eq_false_iff_not] at hex
-    rcases hex with (h1 | h1) | h1
-    · exact h1 h.1
-    · exact h1 h.2.1
-    · exact h1 (by have := h.2.2; omega)
-  have := gen_bounds_clip s e st d (Int.natCast_nonneg d) hst0 hex'
-  rw [hn]
-  unfold BoundsOK
-  rw [this]
-  exact ⟨by rw [clip_step]; exact hst0, rfl⟩
-
 theorem fixed_boundsOK (a b c : Option Int) (d : Nat) (hc : c ≠ some 0) :
     BoundsOK dokSliceBoundsFixed (normalizeSlice a b c d).1 (normalizeSlice a b c d).2.1
       (normalizeSlice a b c d).2.2 d := by
@@ -248,29 +221,6 @@ theorem fixed_boundsOK (a b c : Option Int) (d : Nat) (hc : c ≠ some 0) :
   unfold BoundsOK
   rw [this]
   exact ⟨by rw [clip_step]; exact hst0, rfl⟩
-
-theorem slicesOK_gen : ∀ (key : List KeyPart) (shape : List Nat), key.all stepNonzero = true →
-    ExcludedParts key shape = false → SlicesOK Gen.dokSliceBounds key shape := by
-  intro key
-  induction key with
-  | nil => intro shape _ _; cases shape <;> trivial
-  | cons p ps ih =>
-    intro shape hall hex
-    simp only [List.all_cons, Bool.and_eq_true] at hall
-    cases shape with
-    | nil => cases p <;> trivial
-    | cons d ds =>
-      cases p with
-      | int n =>
-        simp only [ExcludedParts] at hex
-        exact ih ds hall.2 hex
-      | slice a b c =>
-        simp only [ExcludedParts, Bool.or_eq_false_iff] at hex
-        have hc : c ≠ some 0 := by
-          have := hall.1
-          simp only [stepNonzero, bne_iff_ne, ne_eq] at this
-          exact this
-        exact ⟨gen_boundsOK a b c d hc hex.1, ih ds hall.2 hex.2⟩
 
 theorem slicesOK_fixed : ∀ (key : List KeyPart) (shape : List Nat), key.all stepNonzero = true →
     SlicesOK dokSliceBoundsFixed key shape := by
